@@ -43,6 +43,7 @@ def generate(seed, tier):
     if typ == "density" and route == "sizes" and r.random() < 0.12:
         # a purification without auxiliary (or hidden) units is a legal, if degenerate, architecture
         cfg[r.choice(["na", "nh"])] = 0
+    cfg["explicit_sizes_with_module"] = route == "module" and r.random() < 0.3
     cfg["module_zero_weights"] = route == "module" and r.random() < 0.25
     # a single-precision user RBM (the positive wavefunction evaluates, samples and trains it as it is)
     cfg["module_float32"] = route == "module" and typ == "positive" and r.random() < 0.3
@@ -61,7 +62,7 @@ def generate(seed, tier):
             ops.append({"op": "caller_writes_module", "seed": P.s64(r)})
         elif m < 0.93:
             # another state of the same class comes to life (other sizes): the first must not notice
-            ops.append({"op": "construct_other", "nv": r.randint(1, 3), "nh": r.randint(1, 4), "route": r.choice(["sizes", "module"]), "sub": P.s64(r)})
+            ops.append({"op": "construct_other", "nv": r.randint(1, 3), "nh": r.randint(1, 4), "route": r.choice(["sizes", "module", "same_module", "same_module"]), "sub": P.s64(r)})
         else:
             ops.append({"op": "fit_without_bases", "sub": P.s64(r), "stop_pending": r.random() < 0.4})
     ops.append({"op": "contract"})
@@ -116,7 +117,10 @@ def execute(plan):
                 if c.get("module_float32") and c["type"] == "positive":
                     module = module.float()
                 module_before = net_snapshot(module)
-                state = new_state(c["type"], c["nv"] + 5, None, None, module=module, gpu=bool(c.get("gpu_flag")))  # sizes must come from the module
+                # sizes must come from the module, whatever size arguments accompany it
+                wrong_nh = (c["nh"] + 2) if c.get("explicit_sizes_with_module") else None
+                wrong_na = ((c.get("na") or 0) + 1) if (c.get("explicit_sizes_with_module") and c["type"] == "density") else None
+                state = new_state(c["type"], c["nv"] + 5, wrong_nh, wrong_na, module=module, gpu=bool(c.get("gpu_flag")))
             else:
                 state = new_state(c["type"], c["nv"], c.get("nh"), c.get("na"), gpu=bool(c.get("gpu_flag")))
         except Exception as exc:  # noqa: BLE001
@@ -257,7 +261,24 @@ def execute(plan):
                 before = params_snapshot(state)
                 rng.stream(op["sub"])
                 try:
-                    if op["route"] == "module":
+                    if op["route"] == "same_module" and module is not None and c["type"] != "positive" and state.rbm_am is module:
+                        # the caller builds a second state from the very same RBM object
+                        st2 = new_state(c["type"], c["nv"], None, None, module=module)
+                        others.append(st2)
+                        cur_mod = net_snapshot(module)
+                        if st2.rbm_am is not module:
+                            run.violate("20-module", "a second state built from the same RBM does not use it as its amplitude network", type=c["type"])
+                        if st2.rbm_ph is state.rbm_ph:
+                            run.violate("20-alias", "two states built from the same RBM share one phase network object", type=c["type"])
+                        elif not net_equal(st2.rbm_ph, cur_mod):
+                            run.violate("20-module", "the phase network of a second state built from the same RBM is not a copy of the RBM's current parameters", type=c["type"])
+                        else:
+                            ph1 = net_snapshot(state.rbm_ph)
+                            for n_, p_ in named(st2.rbm_ph):
+                                p_.data.add_(1.0)
+                            if not net_equal(state.rbm_ph, ph1):
+                                run.violate("20-alias", "changing the phase network of one state changed the phase network of another state built from the same RBM", type=c["type"])
+                    elif op["route"] == "module":
                         mod2 = PurificationRBM(op["nv"], op["nh"], 1, gpu=False) if c["type"] == "density" else BinaryRBM(op["nv"], op["nh"], gpu=False)
                         others.append(new_state(c["type"], op["nv"], None, None, module=mod2))
                     else:
